@@ -126,6 +126,22 @@ def fv(e, acc=None):
     return acc
 
 
+def float_leaves(e, acc=None):
+    """values of the leaves that were sympy Floats (marked by from_sympy)"""
+    acc = [] if acc is None else acc
+    t = e[0]
+    if t == "n":
+        if len(e) > 3:
+            acc.append((e[1], e[2]))
+    elif t in ("o", "f"):
+        for a in e[2]:
+            float_leaves(a, acc)
+    elif t == "b":
+        for a in (e[3], e[4], e[5]):
+            float_leaves(a, acc)
+    return acc
+
+
 def size(e):
     t = e[0]
     if t in ("n", "s"):
@@ -159,7 +175,7 @@ def from_sympy(x):
         if isinstance(v, sympy.Float):
             inexact[0] = True
             fr = Fraction(float(v))
-            return ["n", fr.numerator, fr.denominator]
+            return ["n", fr.numerator, fr.denominator, "float"]
         if isinstance(v, sympy.Symbol):
             return ["s", v.name]
         if isinstance(v, sympy.Add):
